@@ -411,10 +411,12 @@ func unmarshalCollection(s string) (orb.Collection, error) {
 func splitGeometryCollection(s string) (r []string) {
 	r = make([]string, 0)
 	stack := make([]rune, 0)
+	hasParen := false // whether stack contains a '('
 	l := len(s)
 	for i, v := range s {
-		if !strings.Contains(string(stack), "(") {
+		if !hasParen {
 			stack = append(stack, v)
+			hasParen = v == '('
 			continue
 		}
 		if ('A' <= v && v < 'Z') || ('a' <= v && v < 'z') {
@@ -422,6 +424,7 @@ func splitGeometryCollection(s string) (r []string) {
 			r = append(r, t[:len(t)-1])
 			stack = make([]rune, 0)
 			stack = append(stack, v)
+			hasParen = false
 			continue
 		}
 		if i == l-1 {
